@@ -299,6 +299,79 @@ def stepInts (st : St) (k : Nat) (c : Cont) (cmd : String) (args : List String) 
     | some k, some i => own k (some i) | _, _ => (st, "O bad-op")
   | "set", [i, e] => match parseInt i, parseVal str e with
     | some i, some v => run (.set i v) | _, _ => (st, "O bad-op")
+  | "setelem", [i, k] => match parseInt i, parseInt k with
+    | some i, some k =>
+      -- set(x, i, get(x, k)): store level (pointer / node address) and list level; the specification is `set i (value of k)`
+      (match c with
+      | .arr ek s a =>
+        let (s', rs) := s.setElem i k; let (a', r) := a.setElem i k
+        let sp := match Spec.get a.items k with
+          | some x => Spec.arrStep a.items (.set i x) | none => none
+        let c' := Cont.arr ek s' a'
+        let (st', o) := fin c' rs
+        (st', o ++ resCheck rs r ++ c'.levelCheck ++ specCheck (· == ·) sp a.items a'.items r)
+      | .lst ek s l =>
+        let (s', rs) := s.setElem i k; let (l', r) := l.setElem i k
+        let sp := match Spec.get l.items k with
+          | some x => Spec.lstStep l.items (.set i x) | none => none
+        let c' := Cont.lst ek s' l'
+        let (st', o) := fin c' rs
+        (st', o ++ resCheck rs r ++ c'.levelCheck ++ specCheck (· == ·) sp l.items l'.items r)
+      | .tup _ _ => (st, "O bad-op"))
+    | _, _ => (st, "O bad-op")
+  | "remelem", [k] => match parseInt k with
+    | some k =>
+      (match c with
+      | .arr ek s a =>
+        let (s', rs) := s.remElem k; let (a', r) := a.remElem k
+        let sp := match Spec.get a.items k with
+          | some x => Spec.arrStep a.items (.rem x) | none => none
+        let c' := Cont.arr ek s' a'
+        let (st', o) := fin c' rs
+        (st', o ++ resCheck rs r ++ c'.levelCheck ++ specCheck (· == ·) sp a.items a'.items r)
+      | .lst ek s l =>
+        let (s', rs) := s.remElem k; let (l', r) := l.remElem k
+        let sp := match Spec.get l.items k with
+          | some x => Spec.lstStep l.items (.rem x) | none => none
+        let c' := Cont.lst ek s' l'
+        let (st', o) := fin c' rs
+        (st', o ++ resCheck rs r ++ c'.levelCheck ++ specCheck (· == ·) sp l.items l'.items r)
+      | .tup _ _ => (st, "O bad-op"))
+    | none => (st, "O bad-op")
+  | "memelem", [k] => match parseInt k with
+    | some k =>
+      let (rs, r) : Res Bool × Res Bool := match c with
+        | .arr _ s a => ((match s.get k with | .ok x => s.mem x | .raised e => .raised e | .ub => .ub),
+                         (match a.get k with | .ok x => .ok (a.mem x) | .raised e => .raised e | .ub => .ub))
+        | .lst _ s l => ((match s.get k with | .ok x => s.mem x | .raised e => .raised e | .ub => .ub),
+                         (match l.get k with | .ok x => .ok (l.mem x) | .raised e => .raised e | .ub => .ub))
+        | .tup _ _ => (.ub, .ub)
+      let sh := resOf (fun (b : Bool) => if b then "b=1" else "b=0")
+      (st, out st cmd (sh rs) (some c) ++ obsCheck (sh rs == sh r))
+    | none => (st, "O bad-op")
+  | "concatelems", [k1, k2] => match parseInt k1, parseInt k2 with
+    | some k1, some k2 =>
+      (match c with
+      | .arr ek s a =>
+        let n := a.items.length
+        if (Spec.idx n k1).isSome && Spec.idx n k1 == Spec.idx n k2 then (st, s!"O {cmd} dup-refused") else
+        if (Spec.idx n k1).isSome && (Spec.idx n k2).isSome && n + 2 > a.nslots then (st, s!"O {cmd} own-refused") else
+        let (s', rs) := s.concatElems [k1, k2]; let (a', r) := a.concatElems [k1, k2]
+        let sp := match Spec.get a.items k1, Spec.get a.items k2 with
+          | some x, some y => some (a.items ++ [x, y]) | _, _ => none
+        let c' := Cont.arr ek s' a'
+        let (st', o) := fin c' rs
+        (st', o ++ resCheck rs r ++ c'.levelCheck ++ specCheck (· == ·) sp a.items a'.items r)
+      | .lst ek s l =>
+        if (Spec.idx l.items.length k1).isSome && Spec.idx l.items.length k1 == Spec.idx l.items.length k2 then (st, s!"O {cmd} dup-refused") else
+        let (s', rs) := s.concatElems [k1, k2]; let (l', r) := l.concatElems [k1, k2]
+        let sp := match Spec.get l.items k1, Spec.get l.items k2 with
+          | some x, some y => some (l.items ++ [x, y]) | _, _ => none
+        let c' := Cont.lst ek s' l'
+        let (st', o) := fin c' rs
+        (st', o ++ resCheck rs r ++ c'.levelCheck ++ specCheck (· == ·) sp l.items l'.items r)
+      | .tup _ _ => (st, "O bad-op"))
+    | _, _ => (st, "O bad-op")
   | "rem", [e] => match parseVal str e with
     | some v => run (.rem v) | none => (st, "O bad-op")
   | "get", [i] => match parseInt i with
@@ -364,7 +437,7 @@ def stepTup (st : St) (k : Nat) (s : TupS Obj) (t : Tup Obj) (cmd : String) (arg
       | _ => t
     let c' := Cont.tup r.1 t'
     (setSlot st k (some c'), out st cmd (resStr r.2) (some c') ++ c'.levelCheck)
-  if !s.onHeap && ["push", "append", "pop", "pushat", "popat", "rem", "resize", "pushelem", "pushatelem"].contains cmd then
+  if !s.onHeap && ["push", "append", "pop", "pushat", "popat", "rem", "resize", "pushelem", "pushatelem", "remelem"].contains cmd then
     match cmd, args with
     | "push", [e] => match parseObj st e with
       | (st, some o) => stk st (s.push o) (fun t => (t.push o).1) | (st, none) => (st, "O bad-op")
@@ -386,6 +459,8 @@ def stepTup (st : St) (k : Nat) (s : TupS Obj) (t : Tup Obj) (cmd : String) (arg
       | some k => stk st (s.pushElem k) id | none => (st, "O bad-op")
     | "pushatelem", [k, i] => match parseInt k, parseInt i with
       | some k, some i => stk st (s.pushAtElem k i) id | _, _ => (st, "O bad-op")
+    | "remelem", [k] => match parseInt k with
+      | some k => stk st (s.remElem k) (fun t => (t.remElem k).1) | none => (st, "O bad-op")
     | _, _ => (st, "O bad-op")
   else
   match cmd, args with
@@ -420,6 +495,36 @@ def stepTup (st : St) (k : Nat) (s : TupS Obj) (t : Tup Obj) (cmd : String) (arg
     | none => (st, "O bad-op")
   | "rem", [e] => match parseVal 0 e with
     | some v => run st (.rem ⟨0, v⟩) | none => (st, "O bad-op")
+  | "setelem", [i, k] => match parseInt i, parseInt k with
+    | some i, some k =>
+      (match Spec.idx t.items.length i, Spec.idx t.items.length k with
+      | some ip, some kp => if ip != kp then (st, "O setelem dup-refused") else
+          (match t.get k with
+          | .ok o => run st (.set i o)
+          | _ => (st, "O bad-op"))
+      | _, _ => (st, out st cmd "err=IndexOutOfBoundsError" (some c)))
+    | _, _ => (st, "O bad-op")
+  | "remelem", [k] => match parseInt k with
+    | some k =>
+      (match t.get k with
+      | .ok o => run st (.rem o)
+      | _ => (st, out st cmd "err=IndexOutOfBoundsError" (some c)))
+    | none => (st, "O bad-op")
+  | "memelem", [k] => match parseInt k with
+    | some k =>
+      (match s.get k, t.get k with
+      | .ok o, .ok o' =>
+        let sh : Option Bool → String := fun
+          | some true => "b=1" | some false => "b=0" | none => "diverges"
+        let rs := s.mem ident o fuel
+        (st, out st cmd (sh rs) (some c) ++ obsCheck (rs == t.mem ident o' fuel))
+      | _, _ => (st, out st cmd "err=IndexOutOfBoundsError" (some c)))
+    | none => (st, "O bad-op")
+  | "concatelems", [k1, k2] => match parseInt k1, parseInt k2 with
+    | some k1, some k2 =>
+      if (Spec.idx t.items.length k1).isSome && (Spec.idx t.items.length k2).isSome then (st, "O concatelems dup-refused")
+      else (st, out st cmd "err=IndexOutOfBoundsError" (some c))
+    | _, _ => (st, "O bad-op")
   | "get", [i] => match parseInt i with
     | some i =>
       let sh := resOf (fun (o : Obj) => s!"v={showObj o}")
@@ -494,19 +599,22 @@ def stepTwo (st : St) (k : Nat) (c : Cont) (cmd : String) (srcTok : String) (pre
           fin (.tup s' t') rs r
       | _ => (st, "O bad-op")
     | _ =>
+      -- `assign` (from a source with Len and Get) takes over the element type of the source: the container changes kind
+      let retype := cmd == "assign" && (c.isTup == false) && (match c with | .lst _ _ _ => src.ek < 2 | _ => true)
       let ys : Option (List Int) :=
         match src with
-        | .arr ek _ a => if ek == c.ek then some a.items else none
-        | .lst ek _ l => if ek == c.ek then some l.items else none
+        | .arr ek _ a => if ek == c.ek || retype then some a.items else none
+        | .lst ek _ l => if ek == c.ek || retype then some l.items else none
         | .tup _ u => if isc && c.ek == 0 then some (u.items.map (·.val)) else none
       match ys with
       | none => (st, "O bad-op")
       | some ys =>
         let ys := if indexed then ys else ys.filter (keepVal p)
         let op : Op Int := if isc then .concat ys else .assign ys indexed
+        let nek := fun (ek : Nat) => if retype then src.ek else ek
         match c with
-        | .arr ek s a => let (s', rs) := s.step op; let (a', r) := a.step op; fin (.arr ek s' a') rs r
-        | .lst ek s l => let (s', rs) := s.step op; let (l', r) := l.step op; fin (.lst ek s' l') rs r
+        | .arr ek s a => let (s', rs) := s.step op; let (a', r) := a.step op; fin (.arr (nek ek) s' a') rs r
+        | .lst ek s l => let (s', rs) := s.step op; let (l', r) := l.step op; fin (.lst (nek ek) s' l') rs r
         | .tup _ _ => (st, "O bad-op")
 
 def parseElems (st : St) (toks : List String) : St × Option (List Obj) :=
@@ -584,7 +692,56 @@ def stepLine (st : St) (line : String) : St × String :=
         else let (s', rs) := (TupS.new os).assignSelf; (st, fmt rs (.tup s' t))
       | (st, none) => (st, "O bad-op")
     else (st, "O bad-op")
+  | "kfraw" :: nn :: elems =>
+    match parseNat nn with
+    | some nn =>
+      let vs := elems.map (parseVal 1)
+      if nn > 1000 || !vs.all Option.isSome || elems.length > 200 then (st, "O bad-op") else
+      let xs : List StrElem := (vs.filterMap id).map (fun v => ⟨v⟩)
+      let l : Lst StrElem := (Lst.empty.concat xs).1
+      let s : LstS StrElem := (LstS.new xs).1
+      let (l', r) := l.step (.resize nn)
+      let (_, rs) := s.step (.resize nn)
+      let chk := resCheck rs r
+      match r with
+      | .ok _ => (st, s!"O kfraw ret LS n={l'.nitems} {fmtInts (l'.items.map (·.v))}" ++ chk)
+      | .raised e => (st, s!"O kfraw ret err={e.name}" ++ chk)
+      | .ub => (st, "O kfraw ub" ++ chk)
+    | none => (st, "O bad-op")
   | "kfown" :: opn :: ns :: kk :: ii :: elems =>
+    if opn == "concat" || opn == "assign" || opn == "lassign" then
+      match parseNat ns, parseInt kk, parseInt ii with
+      | some ns, some k1, some k2 =>
+        let vs := elems.map (parseVal 0)
+        if ns > 100000 || !vs.all Option.isSome || elems.length > 200 then (st, "O bad-op") else
+        let xs := vs.filterMap id
+        if (Spec.idx xs.length k1).isSome && Spec.idx xs.length k1 == Spec.idx xs.length k2 then (st, "O bad-op") else
+        if opn == "lassign" then
+          let s : LstS Int := (LstS.new xs).1
+          let l : Lst Int := (Lst.empty.concat xs).1
+          let (s', rs) := s.assignElems [k1, k2]
+          let (l', r) := l.assignElems [k1, k2]
+          let c' := Cont.lst 0 s' l'
+          let chk := resCheck rs r ++ c'.levelCheck
+          match rs with
+          | .ok _ => (st, s!"O kfown {opn} ret {c'.dump}" ++ chk)
+          | .raised e => (st, s!"O kfown {opn} ret err={e.name}" ++ chk)
+          | .ub => (st, s!"O kfown {opn} ub" ++ chk)
+        else
+          let s0 : ArrS Int := ArrS.new xs
+          let a0 : Arr Int := Arr.new xs
+          let s : ArrS Int := if ns > xs.length then (s0.resize ns).1 else s0
+          let a : Arr Int := if ns > xs.length then (a0.resize ns).1 else a0
+          let (s', rs) := if opn == "concat" then s.concatElems [k1, k2] else s.assignElems [k1, k2]
+          let (a', r) := if opn == "concat" then a.concatElems [k1, k2] else a.assignElems [k1, k2]
+          let c' := Cont.arr 0 s' a'
+          let chk := resCheck rs r ++ c'.levelCheck
+          match rs with
+          | .ok _ => (st, s!"O kfown {opn} ret {c'.dump}" ++ chk)
+          | .raised e => (st, s!"O kfown {opn} ret err={e.name}" ++ chk)
+          | .ub => (st, s!"O kfown {opn} ub" ++ chk)
+      | _, _, _ => (st, "O bad-op")
+    else
     if opn != "push" && opn != "pushat" then (st, "O bad-op") else
     match parseNat ns, parseInt kk, parseInt ii with
     | some ns, some kk, some ii =>
